@@ -1,6 +1,12 @@
 from lib.pipeline import Prop
+EX = "{REPO}"
 PROP = Prop(
-    "C32", harness="c32", harness_kind="test", tags="verif synctests", driver="C32", group_by_reset=True,
+    "C32",
+    # Props.C32 reuses Props.C29 (window refinement), which is stated over the regenerated modulus
+    gen=[("FranzVerif/Gen/C29.lean",
+          ["cat", "intfunc", EX + "/pkg/kgo/sink.go", "incrementSequence", "Gen.C29", "--",
+           "remconsts", EX + "/pkg/kfake/txns.go", "pidwindow.pushAndValidate", "Gen.C29K", "kfakeSeqMod", "next"])],
+    harness="c32", harness_kind="test", tags="verif synctests", driver="C32", group_by_reset=True,
     models=[("pkg/kfake/data.go", ["Cluster.pushBatch", "partData.recalculateLSO", "Cluster.trimLeft", "partData.trimAbortedTxns", "partData.searchOffset"]),
             ("pkg/kfake/00_produce.go", ["Cluster.handleProduce"]),
             ("pkg/kfake/01_fetch.go", ["Cluster.handleFetch", "fetchSessions.getOrCreate", "fetchSession.updatePartition", "fetchSession.updateAndFilterResponse"]),
